@@ -436,3 +436,65 @@ func FactSetKey(atoms []Atom) []string {
 	sort.Strings(keys)
 	return keys
 }
+
+// ---------------------------------------------------------------- ast clause -> JSON
+
+// FromTerm converts an ast.BaseTerm (constant, variable, function application).
+func FromTerm(t ast.BaseTerm) any {
+	switch x := t.(type) {
+	case ast.Constant:
+		return FromConst(x)
+	case ast.Variable:
+		return []any{"v", x.Symbol}
+	case ast.ApplyFn:
+		args := make([]any, len(x.Args))
+		for i, a := range x.Args {
+			args[i] = FromTerm(a)
+		}
+		return []any{"ap", x.Function.Symbol, args}
+	}
+	return []any{"unknown", fmt.Sprint(t)}
+}
+
+func fromAtomTerms(a ast.Atom) Atom {
+	out := Atom{P: a.Predicate.Symbol, A: make([]any, len(a.Args))}
+	for i, arg := range a.Args {
+		out.A[i] = FromTerm(arg)
+	}
+	return out
+}
+
+var cmpKind = map[string]string{":lt": "lt", ":le": "le", ":gt": "gt", ":ge": "ge"}
+
+// FromClause converts an analysed ast.Clause back to the JSON clause form (transforms are not converted).
+func FromClause(c ast.Clause) Clause {
+	out := Clause{H: fromAtomTerms(c.Head), B: []any{}, T: []any{"none"}}
+	if c.Transform != nil {
+		out.T = []any{"transform", c.Transform.String()}
+	}
+	for _, p := range c.Premises {
+		switch x := p.(type) {
+		case ast.Atom:
+			if k, ok := cmpKind[x.Predicate.Symbol]; ok && len(x.Args) == 2 {
+				out.B = append(out.B, []any{k, FromTerm(x.Args[0]), FromTerm(x.Args[1])})
+			} else if strings.HasPrefix(x.Predicate.Symbol, ":") {
+				args := make([]any, len(x.Args))
+				for i, a := range x.Args {
+					args[i] = FromTerm(a)
+				}
+				out.B = append(out.B, []any{"bi", x.Predicate.Symbol, args})
+			} else {
+				out.B = append(out.B, []any{"pos", fromAtomTerms(x)})
+			}
+		case ast.NegAtom:
+			out.B = append(out.B, []any{"neg", fromAtomTerms(x.Atom)})
+		case ast.Eq:
+			out.B = append(out.B, []any{"eq", FromTerm(x.Left), FromTerm(x.Right)})
+		case ast.Ineq:
+			out.B = append(out.B, []any{"ne", FromTerm(x.Left), FromTerm(x.Right)})
+		default:
+			out.B = append(out.B, []any{"other", fmt.Sprint(p)})
+		}
+	}
+	return out
+}
